@@ -133,6 +133,14 @@ impl<'a> Ctx<'a> {
     }
 
     fn fail(&mut self, kind: &'static str, tags: Vec<&'static str>, op: &Op, detail: String) {
+        // a failure in a history that contains a reset / detached move / re-split also concerns the property about those
+        let mut tags = tags;
+        if kind == "oracle" {
+            let seen = |f: fn(&Op) -> bool, ex: &Vec<Op>, cur: &Op| ex.iter().any(|o| f(o)) || f(cur);
+            if seen(|o| matches!(o, Op::Reset(_)), &self.executed, op) && !tags.contains(&"C11") { tags.push("C11"); }
+            if seen(|o| matches!(o, Op::Detach(_) | Op::Back(..) | Op::SetI(..) | Op::Sync(_) | Op::Attach(_)), &self.executed, op) && !tags.contains(&"C12") { tags.push("C12"); }
+            if seen(|o| matches!(o, Op::Resplit(_)), &self.executed, op) && !tags.contains(&"C18") { tags.push("C18"); }
+        }
         self.failures.push(Failure { kind, tags, step: self.executed.len(), op: op.line(), detail });
     }
 
@@ -163,12 +171,15 @@ impl<'a> Ctx<'a> {
         // geometry of granted windows (C06)
         if let Out::Win { ho, hl, to, tl, vals } = out {
             if let Some(r) = op.role() {
-                let idx = idx_before[r.i()]; let n = vals.len(); let len = self.oracle.len;
+                let idx = idx_before[r.i()]; let len = self.oracle.len;
+                // the size that was asked for (not the size that came back)
+                let n = match op { Op::Se(_, n) | Op::Nsm(n) | Op::PeekS(n) => *n, Op::Sa(_) | Op::PeekA => before.avail(r),
+                    Op::Sm(_, k) if *k > 0 => { let a = before.avail(r); a - a % k } _ => vals.len() };
                 #[cfg(not(feature = "vmem"))]
                 let (eho, ehl, eto, etl) = if idx + n >= len { (idx, len - idx, 0, idx + n - len) } else { (idx, n, 0, 0) };
                 #[cfg(feature = "vmem")]
                 let (eho, ehl, eto, etl) = (idx, n, 0, 0);
-                if (*ho, *hl, *to, *tl) != (eho, ehl, eto, etl) || ho + hl > 2 * len || to + tl > len {
+                if (*ho, *hl, *to, *tl) != (eho, ehl, eto, etl) || ho + hl > 2 * len || to + tl > len || vals.len() != n {
                     self.fail("oracle", vec!["C06"], op, format!("window geometry: expected head ({eho},{ehl}) tail ({eto},{etl}), got head ({ho},{hl}) tail ({to},{tl}), len {len}"));
                 }
             }
